@@ -374,3 +374,306 @@ Qed.
 Theorem gen_stream_prims_agree :
   G.recv_shape = recv_shape_model /\ G.close_send = close_send_model /\ G.close_recv = close_recv_model.
 Proof. repeat split; reflexivity. Qed.
+
+(* ------------------------------------------------------------------ parentStreamReader.peek *)
+
+Lemma abs_from_length : forall items k eof, List.length (abs_from k items eof) = S (List.length items).
+Proof. induction items as [|x r IH]; intros k eof; simpl; auto. Qed.
+
+Lemma abs_from_nth_item : forall items k eof c x, nth_error items c = Some x ->
+  nth c (abs_from k items eof) ge_empty = mkGe true (pair_of_item x) (Some (S (k + c))).
+Proof.
+  induction items as [|y r IH]; intros k eof [|c] x H; simpl in *; try discriminate.
+  - inversion H; subst. rewrite Nat.add_0_r. reflexivity.
+  - rewrite (IH (S k) eof c x H). do 3 f_equal. lia.
+Qed.
+
+Lemma abs_from_nth_tail : forall items k eof,
+  nth (List.length items) (abs_from k items eof) ge_empty = if eof then mkGe true eof_pair None else ge_empty.
+Proof. induction items as [|y r IH]; intros k eof; simpl; auto. Qed.
+
+Lemma abs_from_snoc : forall items k x,
+  abs_from k (items ++ [x]) false =
+  upd (abs_from k items false ++ [ge_empty]) (List.length items) (mkGe true (pair_of_item x) (Some (S (k + List.length items)))).
+Proof.
+  induction items as [|y r IH]; intros k x; simpl.
+  - rewrite Nat.add_0_r. reflexivity.
+  - f_equal. rewrite IH. do 4 f_equal. lia.
+Qed.
+
+Lemma abs_from_eof : forall items k,
+  upd (abs_from k items false) (List.length items) (mkGe true eof_pair None) = abs_from k items true.
+Proof. induction items as [|y r IH]; intros k; simpl; auto. f_equal. apply IH. Qed.
+
+Lemma upd_upd_same : forall A (l : list A) i a b, upd (upd l i a) i b = upd l i b.
+Proof. induction l as [|x l IH]; intros [|i] a b; simpl; auto. f_equal. apply IH. Qed.
+
+Lemma nth_upd_same : forall A (l : list A) i a d, i < List.length l -> nth i (upd l i a) d = a.
+Proof. induction l as [|x l IH]; intros [|i] a d H; simpl in *; try lia; auto. apply IH. lia. Qed.
+
+Lemma upd_app_l : forall A (l r : list A) i a, i < List.length l -> upd (l ++ r) i a = upd l i a ++ r.
+Proof. induction l as [|x l IH]; intros r [|i] a H; simpl in *; try lia; auto. f_equal. apply IH. lia. Qed.
+
+Lemma item_not_eof : forall x, goerr_eqb (snd (pair_of_item x)) EEOF = false.
+Proof. intros [v|e]; reflexivity. Qed.
+
+Lemma pair_eta : forall x : gopair, (fst x, snd x) = x.
+Proof. intros [a b]; reflexivity. Qed.
+
+Ltac len := repeat (rewrite upd_length || rewrite app_length || rewrite abs_from_length); cbn [List.length]; lia.
+Ltac heap := repeat (first [ rewrite upd_app_l by len | rewrite upd_upd_same | rewrite app_nth1 by len | rewrite nth_upd_same by len ]).
+
+(* peek on the heap picture of the model's parent is the copy branch of [recv] *)
+Theorem gen_parent_peek_agrees : forall P i srcp,
+  match nth_error (p_cur P) i with
+  | Some None => G.parent_peek (abs_parent P) i srcp = ((0%N, ERecvAfterClosed), abs_parent P, false)
+  | Some (Some c) => c <= List.length (p_items P) ->
+      match nth_error (p_items P) c with
+      | Some x => G.parent_peek (abs_parent P) i srcp = (pair_of_item x, abs_parent (deliver P i c x), false)
+      | None =>
+          if p_eof P then G.parent_peek (abs_parent P) i srcp = (eof_pair, abs_parent P, false)
+          else (forall x, srcp = pair_of_item x ->
+                  G.parent_peek (abs_parent P) i srcp = (pair_of_item x, abs_parent (deliver (pulled_item P x) i c x), true))
+               /\ (srcp = eof_pair -> G.parent_peek (abs_parent P) i srcp = (eof_pair, abs_parent (pulled_eof P), true))
+      end
+  | None => True
+  end.
+Proof.
+  intros P i srcp. destruct (nth_error (p_cur P) i) as [[c|]|] eqn:Ec; auto.
+  - intros Hc. unfold G.parent_peek. cbv zeta.
+    assert (Hidx : go_index None (gp_sub (abs_parent P)) i = Some c).
+    { unfold go_index. simpl. apply nth_error_nth. exact Ec. }
+    rewrite Hidx. cbn [go_isnil].
+    destruct (nth_error (p_items P) c) as [x|] eqn:Ex.
+    + (* the element is filled *)
+      assert (Hd : deref (abs_parent P) (Some c) = mkGe true (pair_of_item x) (Some (S c))).
+      { unfold deref, abs_parent. cbn [gp_elems]. rewrite (abs_from_nth_item _ 0 _ c x Ex). reflexivity. }
+      rewrite Hd. cbn [ge_done ge_item ge_next]. rewrite item_not_eof. cbn [negb]. rewrite pair_eta. reflexivity.
+    + apply nth_error_None in Ex. assert (c = List.length (p_items P)) by lia. subst c.
+      destruct (p_eof P) eqn:Ee.
+      * assert (Hd : deref (abs_parent P) (Some (List.length (p_items P))) = mkGe true eof_pair None).
+        { unfold deref, abs_parent. cbn [gp_elems]. rewrite abs_from_nth_tail, Ee. reflexivity. }
+        rewrite Hd. reflexivity.
+      * assert (Hd : deref (abs_parent P) (Some (List.length (p_items P))) = ge_empty).
+        { unfold deref, abs_parent. cbn [gp_elems]. rewrite abs_from_nth_tail, Ee. reflexivity. }
+        rewrite Hd. cbn [ge_done ge_empty].
+        assert (Hlen : List.length (p_items P) < List.length (abs_from 0 (p_items P) false)) by (rewrite abs_from_length; lia).
+        split.
+        -- intros x ->. destruct (pair_of_item x) as [t e] eqn:Ep.
+           assert (He : goerr_eqb e EEOF = false) by (pose proof (item_not_eof x) as Q; rewrite Ep in Q; exact Q).
+           rewrite He. cbn [negb].
+           unfold ge_set_item, ge_set_next_new, ge_mark_done, set_ge, set_gp_sub, deref, abs_parent.
+           cbn [gp_elems gp_sub]. rewrite Ee. rewrite abs_from_nth_tail.
+           repeat (heap; cbn [ge_done ge_item ge_next ge_empty fst snd gp_elems gp_sub]).
+           rewrite He. cbn [negb].
+           repeat (heap; cbn [ge_done ge_item ge_next ge_empty fst snd gp_elems gp_sub]).
+           unfold deliver, pulled_item. cbn [p_items p_eof p_cur]. rewrite Ee.
+           rewrite abs_from_snoc. heap. rewrite upd_length, abs_from_length. rewrite <- Ep.
+           replace (0 + List.length (p_items P)) with (List.length (p_items P)) by lia. reflexivity.
+        -- intros ->. unfold eof_pair. cbn [goerr_eqb negb].
+           unfold ge_set_item, ge_mark_done, set_ge, deref, abs_parent.
+           cbn [gp_elems gp_sub]. rewrite Ee. rewrite abs_from_nth_tail.
+           repeat (heap; cbn [ge_done ge_item ge_next ge_empty fst snd gp_elems gp_sub goerr_eqb negb]).
+           unfold pulled_eof. cbn [p_items p_eof p_cur].
+           rewrite abs_from_eof. reflexivity.
+  - unfold G.parent_peek. cbv zeta. unfold go_index. simpl gp_sub.
+    rewrite (nth_error_nth _ _ None Ec). reflexivity.
+Qed.
+
+(* what a reader that is handed the pair sees, as a result of the model's recv *)
+Definition pres_of_pair (p : gopair) : pres :=
+  match see p with SeenItem x => PItem x | SeenEOF => PEOF | SeenOther => PBad end.
+
+Lemma pres_of_pair_item : forall x, pres_of_pair (pair_of_item x) = PItem x.
+Proof. intros [v|e]; reflexivity. Qed.
+
+(* Recv on a copy in the model is the generated peek on the heap picture of its parent: the
+   source is consulted exactly when the generated code calls it ([pulled]), the result is what
+   the generated code returns, and the heap picture of the model's new parent record is the
+   heap the generated code leaves *)
+Theorem child_recv_is_gen : forall fuel st p i P c ch,
+  nth_error (parents st) p = Some P -> nth_error (p_cur P) i = Some (Some c) -> c <= List.length (p_items P) ->
+  let '(r0, gp0, pulled0) := G.parent_peek (abs_parent P) i eof_pair in
+  if pulled0 then
+    let '(r, st1, src1, ch1) := recv fuel st (p_src P) ch in
+    match pair_of_pres r with
+    | Some sp =>
+        let '(res, gp1, _) := G.parent_peek (abs_parent P) i sp in
+        exists P1, recv (S fuel) st (RChild p i) ch = (pres_of_pair res, set_parent st1 p P1, RChild p i, ch1)
+                   /\ abs_parent P1 = gp1 /\ p_src P1 = src1
+    | None => recv (S fuel) st (RChild p i) ch = (r, set_parent st1 p (with_src P src1), RChild p i, ch1)
+    end
+  else
+    exists P1, recv (S fuel) st (RChild p i) ch = (pres_of_pair r0, set_parent st p P1, RChild p i, ch)
+               /\ abs_parent P1 = gp0.
+Proof.
+  intros fuel st p i P c ch HP Hc Hle.
+  pose proof (gen_parent_peek_agrees P i eof_pair) as A0. rewrite Hc in A0. specialize (A0 Hle).
+  cbn [recv]. rewrite HP, Hc.
+  destruct (nth_error (p_items P) c) as [x|] eqn:Ex.
+  - rewrite A0. exists (deliver P i c x). rewrite pres_of_pair_item. auto.
+  - destruct (p_eof P) eqn:Ee.
+    + rewrite A0. exists (mark_eof P i). split; [reflexivity|]. unfold abs_parent, mark_eof. reflexivity.
+    + destruct A0 as [_ A0]. rewrite (A0 eq_refl).
+      destruct (recv fuel st (p_src P) ch) as [[[r st1] src1] ch1].
+      pose proof (gen_parent_peek_agrees P i) as A. 
+      destruct r as [x| | | |]; cbn [pair_of_pres]; try reflexivity.
+      * specialize (A (pair_of_item x)). rewrite Hc in A. specialize (A Hle). rewrite Ex, Ee in A.
+        destruct A as [A _]. rewrite (A x eq_refl).
+        exists (deliver (pulled_item (with_src P src1) x) i c x). rewrite pres_of_pair_item.
+        split; [reflexivity|]. split; reflexivity.
+      * specialize (A eof_pair). rewrite Hc in A. specialize (A Hle). rewrite Ex, Ee in A.
+        destruct A as [_ A]. rewrite (A eq_refl).
+        exists (mark_eof (pulled_eof (with_src P src1)) i). split; [reflexivity|]. split; reflexivity.
+Qed.
+
+(* ------------------------------------------------------------------ MergeStreamReaders *)
+
+Definition merge_step (acc : macc) (sr : rd) : macc :=
+  match rd_typ sr with
+  | TStream => set_m_ss acc ((m_ss acc) ++ [(rd_st sr)])
+  | TArray => set_m_arr acc ((m_arr acc) ++ (go_slice_from (rd_arr sr) (rd_index sr)))
+  | TMulti => set_m_ss acc ((m_ss acc) ++ (rd_sts sr))
+  | TConv => let '(acc, s) := to_stream G.conv_fwd_cap acc sr in set_m_ss acc ((m_ss acc) ++ [s])
+  | TChild => let '(acc, s) := to_stream G.child_fwd_cap acc sr in set_m_ss acc ((m_ss acc) ++ [s])
+  end.
+
+Lemma merge_fold_collect : forall ts st fw ss arr,
+  fold_left merge_step ts (mkMacc st fw ss arr) =
+  let '(st1, fw1, ss1, arr1) := merge_collect st fw ts ss arr in mkMacc st1 fw1 ss1 arr1.
+Proof.
+  induction ts as [|t ts IH]; intros st fw ss arr; [reflexivity|].
+  cbn [fold_left merge_collect].
+  destruct t as [d rest | s | sts ch | f src cin cout | p i]; unfold merge_step; cbn [rd_typ];
+    unfold set_m_ss, set_m_arr, to_stream, rd_st, rd_arr, rd_index, rd_sts, go_slice_from;
+    cbn [m_st m_fw m_ss m_arr skipn]; apply IH.
+Qed.
+
+Lemma nth_error_app_last : forall A (l : list A) a, nth_error (l ++ [a]) (List.length l) = Some a.
+Proof. induction l as [|x l IH]; intros a; simpl; auto. Qed.
+
+Lemma upd_app_last : forall A (l : list A) a b, upd (l ++ [a]) (List.length l) b = l ++ [b].
+Proof. induction l as [|x l IH]; intros a b; simpl; auto. f_equal. apply IH. Qed.
+
+Lemma upd_same_nth : forall A (l : list A) i a, nth_error l i = Some a -> upd l i a = l.
+Proof. induction l as [|x l IH]; intros [|i] a H; simpl in *; try discriminate; [congruence | f_equal; auto]. Qed.
+
+Lemma upd_upd_eq : forall A (l : list A) i a b, upd (upd l i a) i b = upd l i b.
+Proof. induction l as [|x l IH]; intros [|i] a b; simpl; auto. f_equal. apply IH. Qed.
+
+Lemma nth_error_upd_same : forall A (l : list A) i a, i < List.length l -> nth_error (upd l i a) i = Some a.
+Proof. induction l as [|x l IH]; intros [|i] a H; simpl in *; try lia; auto. apply IH. lia. Qed.
+
+(* filling the stream that Merge builds from its array arguments, item by item *)
+Lemma fill_array_stream : forall rest pre st fw ss arr0 sid cap,
+  arr0 = pre ++ rest -> List.length arr0 <= eff_cap cap ->
+  nth_error (streams st) sid = Some (mkS cap (map IVal pre) false 0 false (map IVal pre) []) ->
+  fold_left (fun acc i => stream_send_in acc sid ((go_index 0%N (m_arr acc) i), ENil))
+            (seq (List.length pre) (List.length rest)) (mkMacc st fw ss arr0)
+  = mkMacc (set_stream st sid (mkS cap (map IVal arr0) false 0 false (map IVal arr0) [])) fw ss arr0.
+Proof.
+  induction rest as [|x r IH]; intros pre st fw ss arr0 sid cap Harr Hcap Hs.
+  - rewrite app_nil_r in Harr. subst arr0. simpl. f_equal. unfold set_stream. destruct st as [sl pl]. simpl in *.
+    rewrite (upd_same_nth _ _ _ _ Hs). reflexivity.
+  - cbn [List.length seq fold_left]. unfold stream_send_in at 2. cbn [m_st m_fw m_ss m_arr]. rewrite Hs.
+    assert (Hx : go_index 0%N arr0 (List.length pre) = x).
+    { unfold go_index. subst arr0. rewrite app_nth2 by lia. rewrite Nat.sub_diag. reflexivity. }
+    rewrite Hx. cbn [see].
+    assert (Hlt : List.length pre < eff_cap cap).
+    { subst arr0. rewrite app_length in Hcap. simpl in Hcap. lia. }
+    unfold stream_send. cbn [s_rclosed s_sclosed s_buf s_cap s_user s_sent s_deliv].
+    change (Nat.ltb 0 0) with false. cbv iota. rewrite map_length. rewrite (proj2 (Nat.ltb_lt _ _) Hlt). cbn [snd].
+    specialize (IH (pre ++ [x]) (set_stream st sid (mkS cap (map IVal pre ++ [IVal x]) false 0 false (map IVal pre ++ [IVal x]) [])) fw ss arr0 sid cap).
+    rewrite app_length in IH. cbn [List.length] in IH. replace (List.length pre + 1) with (S (List.length pre)) in IH by lia.
+    rewrite IH.
+    + f_equal. unfold set_stream. cbn [streams parents]. rewrite upd_upd_eq. reflexivity.
+    + rewrite <- app_assoc. exact Harr.
+    + exact Hcap.
+    + unfold set_stream. cbn [streams]. rewrite map_app. cbn [map].
+      apply nth_error_upd_same. apply nth_error_Some. congruence.
+Qed.
+
+Lemma close_send_in_set : forall st sid s fw ss arr, sid < List.length (streams st) ->
+  close_send_in (mkMacc (set_stream st sid s) fw ss arr) sid
+  = mkMacc (set_stream st sid (snd (stream_close_send s))) fw ss arr.
+Proof.
+  intros st sid s fw ss arr H. unfold close_send_in. cbn [m_st m_fw m_ss m_arr].
+  unfold set_stream at 1. cbn [streams]. rewrite nth_error_upd_same by exact H.
+  f_equal. unfold set_stream. cbn [streams parents]. rewrite upd_upd_eq. reflexivity.
+Qed.
+
+(* MergeStreamReaders on at least two readers is the model's OMerge: the loop is [merge_collect],
+   then an array reader, or a merged reader over the collected streams (plus, if there were
+   array arguments, a stream filled with their items and send-closed: [array_stream]) *)
+Theorem gen_merge_agrees : forall ts st fw, 2 <= List.length ts ->
+  G.merge_readers ts (mkMacc st fw [] []) =
+  let '(st1, fw1, ss, arr) := merge_collect st fw ts [] [] in
+  match ss, arr with
+  | [], _ :: _ => (Some (RArr [] arr), mkMacc st1 fw1 ss arr)
+  | _, _ :: _ =>
+      let sid := List.length (streams st1) in
+      (Some (RMul (ss ++ [sid]) (seq 0 (List.length (ss ++ [sid])))),
+       mkMacc (add_stream st1 (array_stream arr)) fw1 (ss ++ [sid]) arr)
+  | _, [] => (Some (RMul ss (seq 0 (List.length ss))), mkMacc st1 fw1 ss arr)
+  end.
+Proof.
+  intros ts st fw Hlen. unfold G.merge_readers.
+  rewrite (proj2 (Nat.ltb_ge _ _)) by lia. rewrite (proj2 (Nat.ltb_ge _ _)) by lia.
+  change (fold_left _ ts (mkMacc st fw [] [])) with (fold_left merge_step ts (mkMacc st fw [] [])).
+  rewrite merge_fold_collect. destruct (merge_collect st fw ts [] []) as [[[st1 fw1] ss] arr].
+  cbv zeta. cbn [m_ss m_arr m_st m_fw].
+  destruct ss as [|s0 ss]; destruct arr as [|x0 arr];
+    repeat (change (Nat.eqb (@List.length nat []) 0) with true || change (Nat.eqb (@List.length N []) 0) with true
+            || change (Nat.eqb (List.length (s0 :: ss)) 0) with false || change (Nat.eqb (List.length (x0 :: arr)) 0) with false);
+    cbn [negb andb].
+  - rewrite gen_msr_new_agrees. reflexivity.
+  - reflexivity.
+  - rewrite gen_msr_new_agrees. reflexivity.
+  - unfold new_stream_in. cbn [m_ss m_arr m_st m_fw].
+    set (arr0 := x0 :: arr).
+    pose proof (fill_array_stream arr0 [] (add_stream st1 (new_stream (List.length arr0) false)) fw1 (s0 :: ss) arr0
+                  (List.length (streams st1)) (List.length arr0) eq_refl) as HF.
+    change (List.length (@nil N)) with 0 in HF. cbn [map app] in HF.
+    rewrite HF.
+    + rewrite close_send_in_set by (unfold add_stream; cbn [streams]; rewrite app_length; simpl; lia).
+      unfold stream_close_send. cbn [s_sclosed snd s_cap s_buf s_rclosed s_user s_sent s_deliv].
+      unfold set_m_ss. cbn [m_ss m_arr m_st m_fw]. rewrite gen_msr_new_agrees. unfold mk_multi_reader. cbn [msr_sts msr_chosenList].
+      f_equal. f_equal. unfold set_stream, add_stream. cbn [streams parents]. rewrite upd_app_last.
+      reflexivity.
+    + unfold eff_cap. lia.
+    + unfold add_stream. cbn [streams]. apply nth_error_app_last.
+Qed.
+
+Theorem gen_merge_small : forall acc t,
+  G.merge_readers [] acc = (None, acc) /\ G.merge_readers [t] acc = (Some t, acc).
+Proof. intros; split; reflexivity. Qed.
+
+Lemma live_rds_length : forall G hs ts, live_rds G hs = Some ts -> List.length ts = List.length hs.
+Proof.
+  intros G. induction hs as [|h r IH]; intros ts H; simpl in H.
+  - inversion H. reflexivity.
+  - destruct (live_rd G h); [|discriminate]. destruct (live_rds G r) as [ts'|]; [|discriminate].
+    inversion H; subst. simpl. f_equal. apply IH. reflexivity.
+Qed.
+
+(* OMerge of the model on at least two distinct live handles is the generated function applied to
+   their readers: the new handle holds the reader it returns, the store and the forwarders are the
+   ones it leaves *)
+Theorem omerge_is_gen : forall fuel G hs ts, 2 <= List.length hs -> nodupb hs = true -> live_rds G hs = Some ts ->
+  do_op fuel G (OMerge hs) =
+  let S1 := consume_all G hs in
+  let '(r, acc) := G.merge_readers ts (mkMacc (st_store S1) (st_fwds S1) [] []) in
+  match r with
+  | Some t => (BNew [List.length (st_handles S1)],
+               mkState (m_st acc) (m_fw acc) (st_handles S1 ++ [mkH t true false [] false]))
+  | None => (BIllegal, G)
+  end.
+Proof.
+  intros fuel G hs ts Hlen Hnd Hlive.
+  assert (Hts : 2 <= List.length ts) by (rewrite (live_rds_length _ _ _ Hlive); exact Hlen).
+  destruct hs as [|h0 [|h1 hs']]; [simpl in Hlen; lia | simpl in Hlen; lia |].
+  cbv zeta. rewrite (gen_merge_agrees ts _ _ Hts).
+  unfold do_op. rewrite Hnd. cbn [negb]. rewrite Hlive.
+  destruct (merge_collect (st_store (consume_all G (h0 :: h1 :: hs'))) (st_fwds (consume_all G (h0 :: h1 :: hs'))) ts [] []) as [[[st1 fw1] ss] arr].
+  destruct ss as [|s0 ss]; destruct arr as [|x0 arr]; reflexivity.
+Qed.
